@@ -413,3 +413,73 @@ pub fn sweep_fmt(tkind: TKind) -> (u64, Vec<(String, String)>) {
     mmio::set_handler(None);
     r
 }
+
+// ------------------------------------------------------------------------------------------------
+// A long receive session: more than 65536 chunks through the receive queue (both ring indices
+// wrap), every byte taken with recv(true) and compared with what the device wrote.
+
+pub fn run_linear_rx(tkind: TKind, chunks: u64) -> (u64, Vec<(String, String)>) {
+    struct VL {
+        chunks: u64,
+    }
+    impl TransportVisitor for VL {
+        type Out = (u64, Vec<(String, String)>);
+        fn visit<T: Transport + 'static>(self, t: T, w: &DWorld) -> Self::Out {
+            let co = CoDevice::new(w.dev.clone(), Box::new(move |q, _chain, _readable| if q == 0 { Action::Hold } else { Action::Complete(vec![], 0) }));
+            co.borrow_mut().spin_horizon = 6;
+            cosim::install(&co);
+            let mut out = vec![];
+            let mut con = match VirtIOConsole::<LabHal, T>::new(t) {
+                Ok(c) => c,
+                Err(e) => {
+                    cosim::uninstall();
+                    return (0, vec![("construction".into(), format!("{:?}", e))]);
+                }
+            };
+            let mut pos = 0u64;
+            let mut n = 0u64;
+            'outer: for i in 0..self.chunks {
+                let len = 1 + (i % 3) as usize;
+                let data: Vec<u8> = (0..len as u64).map(|k| stream_byte(pos + k)).collect();
+                let filled = {
+                    let mut c = co.borrow_mut();
+                    c.held_count(0) > 0 && c.complete_held(0, 0, &data, len as u32)
+                };
+                if !filled {
+                    out.push(("linear-receive".into(), format!("chunk {}: no receive buffer is posted although everything delivered so far has been read", i)));
+                    break;
+                }
+                for k in 0..len {
+                    match crate::util::catch(|| con.recv(true)) {
+                        Ok(Ok(Some(b))) if b == data[k] => {}
+                        other => {
+                            out.push(("linear-receive".into(), format!("chunk {} ({} bytes, stream position {}): recv(true) for byte {} -> {:?}, the device wrote {:#x}", i, len, pos, k, other, data[k])));
+                            break 'outer;
+                        }
+                    }
+                }
+                match crate::util::catch(|| con.recv(true)) {
+                    Ok(Ok(None)) => {}
+                    other => {
+                        out.push(("linear-receive".into(), format!("after chunk {} was read completely recv(true) -> {:?}, expected None", i, other)));
+                        break;
+                    }
+                }
+                pos += len as u64;
+                n += 1;
+                if i % 4096 == 0 {
+                    hal::with(|h| h.compact());
+                    co.borrow_mut().served.clear();
+                }
+            }
+            drop(con);
+            cosim::uninstall();
+            (n, out)
+        }
+    }
+    hal::reset();
+    let w = DWorld::new(Kind::Console, tkind, F_VERSION_1, Kind::Console.default_config());
+    let r = w.with_transport(VL { chunks });
+    mmio::set_handler(None);
+    r
+}
